@@ -164,6 +164,36 @@ def run(prop, tier, replay=None):
                         viol[key] = dict(property=prop, formula=f[2], seed=sd, cases=[s_], observed=ev, signature=sig, more=0, replay_driver="proxy",
                                          what="%s: proxied %s %s n=%d failAt=%s failK=%d: %d call(s) on the interceptor's stream in progress at or begun after the forwarder's return" % (
                                              f[2], s_["shape"], s_["mode"], s_["n"], s_["failAt"], s_["failK"], v_["ilate"]))
+            # ---- a proxied gzip upload whose backend fails while the client is still sending, then another gzip upload (the first
+            # call's pump may still be reading its body: nothing of it may reach the second call)
+            if not replay and k == 0:
+                ot = scratch.path("overlap.ndjson")
+                op, _ = C.run([race, "gzoverlap", "-out", ot, "-n", "12" if tier == "quick" else "100"], timeout=1200, env=dict(os.environ, GORACE="halt_on_error=0"))
+                oreports = [r for r in op.stdout.split("==================") if "WARNING: DATA RACE" in r]
+                opump = [r for r in oreports if "createConnHandler.func1.1" in r and ("serveGRPC.func1" in r or "sync.(*WaitGroup)" in r)]
+                okf = C.match_finding(C.load_findings(), prop, dict(module="Proxy", formula="DataRace", site="pump-after-return"))
+                if okf:
+                    known[okf["id"]] += len(opump)
+                    oreports = [r for r in oreports if r not in opump]
+                if oreports:
+                    viol[("DataRace", "gzoverlap")] = dict(property=prop, formula="DataRace", seed=sd, cases=[], more=0, replay_driver="gzoverlap",
+                                                          signature=dict(module="Proxy", formula="DataRace", proto="gzoverlap"),
+                                                          what="race detector report in the overlapping gzip uploads: %s" % oreports[0][oreports[0].index("WARNING: DATA RACE"):][:500].replace("\n", " | "))
+                elif op.returncode != 0 and "WARNING: DATA RACE" not in op.stdout:
+                    raise C.Infra("gzoverlap driver (race build) failed:\n" + op.stdout[-3000:])
+                if os.path.exists(ot) and os.path.getsize(ot) > 0:
+                    orep = C.validate_shards(scratch, "PoolTrace.tla", "PoolTrace.cfg", [(ot, sum(1 for _ in open(ot)))], timeout=900)[0]
+                    olines = open(ot).read().splitlines()
+                    stat["overlapping_gzip_uploads"] += len(olines)
+                    for f in orep["failed"]:
+                        oe = json.loads(olines[f[1] - 1])
+                        key = (f[2], "gzoverlap")
+                        if key in viol:
+                            viol[key]["more"] += 1
+                            continue
+                        viol[key] = dict(property=prop, formula=f[2], seed=sd, cases=[], more=0, replay_driver="gzoverlap", signature=dict(module="Pool", formula=f[2], proto="gzoverlap"),
+                                         what="%s: after a proxied gzip upload whose backend failed (HTTP %s) the next gzip upload sent %s and its backend received %s (HTTP %s) %s" % (
+                                             f[2], oe["firststatus"], oe["sent"], oe["got"], oe["status"], oe["crash"][:100]))
             # ---- several backends for one service (a local handler and two connections, each with descriptors of its own),
             # path variables in the bindings, readers only: the serving paths alone under the race detector
             if not replay:
